@@ -1,2 +1,6 @@
 import P2P.Props.C18
-#print axioms P2P.Props.C18.placeholder
+#print axioms P2P.Props.C18.cube_values
+#print axioms P2P.Props.C18.cube_six_per_line
+#print axioms P2P.Props.C18.cube_header
+#print axioms P2P.Props.C18.dx_values
+#print axioms P2P.Props.C18.dx_cube_roundtrip
